@@ -11,11 +11,24 @@
 using namespace romea::core;
 using vp::Toks;
 
-static const std::string NAME = "qty";
-static std::unique_ptr<Checkup<double>> chk;
-static std::unique_ptr<CheckupReliability> rel;
-static bool haveLast = false;
-static double last = 0;
+// Two independent objects with DIFFERENT names live side by side (ops prefixed `sib.` drive the second one): check-ups share
+// nothing, so whatever one object does must not show in the other's report (seeded change c18c: the "<name> timeout." text built
+// once into a function-local static, i.e. shared by every check-up of the process).
+struct Slot
+{
+  std::string name_;
+  std::unique_ptr<Checkup<double>> chk_;
+  std::unique_ptr<CheckupReliability> rel_;
+  bool haveLast_ = false;
+  double last_ = 0;
+};
+static Slot slots[2];
+static Slot * cur = &slots[0];
+#define NAME (cur->name_)
+#define chk (cur->chk_)
+#define rel (cur->rel_)
+#define haveLast (cur->haveLast_)
+#define last (cur->last_)
 
 static std::string st(DiagnosticStatus s) { return std::to_string(static_cast<int>(s)); }
 
@@ -80,9 +93,27 @@ static std::string fmtReport(const DiagnosticReport & r)
   return o;
 }
 
-static void reset() { chk.reset(); rel.reset(); haveLast = false; }
+static void reset()
+{
+  slots[0].name_ = "qty"; slots[1].name_ = "aux_quantity";
+  for (Slot & s : slots) { s.chk_.reset(); s.rel_.reset(); s.haveLast_ = false; }
+  cur = &slots[0];
+}
 
-static std::string handle(const Toks & t)
+static std::string handleSlot(const Toks & t);
+static std::string handle(const Toks & t0)
+{
+  if (t0[0].compare(0, 4, "sib.") == 0) {
+    Toks t = t0; t[0] = t[0].substr(4);
+    if (t[0].compare(0, 4, "chk.") != 0) { throw vp::BadOp(); }
+    cur = &slots[1];
+    try { std::string r = handleSlot(t); cur = &slots[0]; return r; } catch (...) { cur = &slots[0]; throw; }
+  }
+  cur = &slots[0];
+  return handleSlot(t0);
+}
+
+static std::string handleSlot(const Toks & t)
 {
   const std::string & op = t[0];
   if (op == "chk.new" && t.size() == 4) {
